@@ -167,6 +167,10 @@ def run(chk):
     if chk.tier != "thorough":       # quick: all write/read members + half of the write/write members (by seed parity)
         fam = [f for q, f in enumerate(fam) if f[0].endswith("read") or (q // 2) % 2 == chk.seed % 2]
     sources += [(name, c08_gen.wrap_loop(chk.rng, lines), "nest2-family") for name, lines in fam]
+    fam = c08_gen.free2_family()
+    if chk.tier != "thorough":
+        fam = [f for q, f in enumerate(fam) if "-read" in f[0] or "-r1-" in f[0] or (q // 4) % 2 == chk.seed % 2]
+    sources += [(name, c08_gen.wrap_loop(chk.rng, lines), "free2-family") for name, lines in fam]
     for q in range(n):
         s, fl = c08_gen.gen_source(chk.rng)
         sources.append((f"gen{q}", s, fl))
